@@ -49,6 +49,8 @@ def generic_fkey(fn):
             t = t.replace(fn.cls, fn.clsq)
         # longest template args first so that e.g. "unsigned int" is replaced before "int"
         for i, a in sorted(enumerate(targs), key=lambda x: -len(x[1])):
+            if a in ("void",):
+                continue
             t = re.sub(r"(?<![\w:])" + re.escape(a) + r"(?![\w:])", "T%d" % i, t)
         ps.append(strip_targs(t))
     k = "%s(%s)" % (strip_targs(fn.name), ", ".join(ps))
